@@ -41,7 +41,7 @@ func exact(b []byte) []byte {
 // TestDecoders: reference encoding of generated values decodes to those values;
 // every length below the variant's minimum is rejected.
 func TestDecoders(t *testing.T) {
-	ev.Check(t, "TestDecoders", ev.Pick(40000, 1600000), func(t *rapid.T) {
+	ev.Check(t, "TestDecoders", ev.PickN(40000, 1600000), func(t *rapid.T) {
 		hx.PendingReject = nil
 		c := hx.GenResponseCase(t)
 		mustReject := hx.PendingReject
@@ -75,7 +75,7 @@ func TestDecoders(t *testing.T) {
 // TestMessageAndWrapper: ref-built response messages and session wrappers decode
 // to their values; corrupted checksums and oversized length fields are rejected.
 func TestMessageAndWrapper(t *testing.T) {
-	ev.Check(t, "TestMessageAndWrapper", ev.Pick(6000, 300000), func(t *rapid.T) {
+	ev.Check(t, "TestMessageAndWrapper", ev.PickN(6000, 300000), func(t *rapid.T) {
 		netfn := byte(rapid.SampledFrom([]int{1, 5, 7, 0x0b, 0x2d, 0x2f, 0x31}).Draw(t, "netfn"))
 		m := &ref.Msg{RsAddr: 0x81, NetFn: netfn, RsLUN: byte(rapid.IntRange(0, 3).Draw(t, "rslun")), RqAddr: 0x20, RqSeq: byte(rapid.IntRange(0, 63).Draw(t, "seq")),
 			RqLUN: byte(rapid.IntRange(0, 3).Draw(t, "rqlun")), Cmd: rapid.Byte().Draw(t, "cmd"), CC: rapid.Byte().Draw(t, "cc")}
@@ -209,7 +209,7 @@ func TestChecksumSweep(t *testing.T) {
 // simulated BMC, and checks that a corrupted reply yields an error from the call.
 func TestThroughAPI(t *testing.T) {
 	cat := hx.Catalogue()
-	ev.Check(t, "TestThroughAPI", ev.Pick(3000, 150000), func(t *rapid.T) {
+	ev.Check(t, "TestThroughAPI", ev.PickN(3000, 150000), func(t *rapid.T) {
 		creds := hx.Creds{User: "admin", Password: []byte("secret"), Priv: 4, Suite: rapid.SampledFrom(hx.Suites9()).Draw(t, "suite"), Seed: rapid.Uint64().Draw(t, "seed")}
 		w := hx.NewWorldFor(creds, true)
 		e := rapid.SampledFrom(cat).Draw(t, "command")
